@@ -5,6 +5,9 @@ CONSTANTS
   Variant = "staleidx"
   MidCrash = TRUE
   ReqDescs = {"a", "b"}
+  Hard = {"b"}
+  ViaReserve = {"b"}
+  InitLocks = {"plain", "unlocked"}
   TopUps = {0, 4}
 INIT Init
 NEXT Next
